@@ -62,11 +62,11 @@ theorem readH1_ok (h : Hdr) (rest : List Tok) (hnopts : h.nopts ≤ 9) (hlen : h
     intro b; cases b <;> simp
   generalize hol : h.opts.take h.nopts = ol at hl ⊢
   by_cases hA : h.opts[1]? = some (3 : Int)
-  · have hr := readOpts_map cd ol h.nopts (.vbt h.vbtol :: .cmt ("problem " ++ h.probName) :: .eol :: rest) hl (by simp)
+  · have hr := readOpts_map cd ol h.nopts (.vbt h.vbtol :: .cmt "" :: .eol :: rest) hl (by simp)
     by_cases hB : (ol ++ List.drop ol.length [(1 : Int), 1, 0, 0, 0, 0, 0, 0, 0])[1]? = some (3 : Int)
     · simp [readH1, wH1, hol, hA, hB, hgt, hfmt, hfmt2, hr, hdr0]
     · simp [readH1, wH1, hol, hA, hB, hgt, hfmt, hfmt2, hr, hdr0]
-  · have hr := readOpts_map cd ol h.nopts (.cmt ("problem " ++ h.probName) :: .eol :: rest) hl (by simp)
+  · have hr := readOpts_map cd ol h.nopts (.cmt "" :: .eol :: rest) hl (by simp)
     by_cases hB : (ol ++ List.drop ol.length [(1 : Int), 1, 0, 0, 0, 0, 0, 0, 0])[1]? = some (3 : Int)
     · simp [readH1, wH1, hol, hA, hB, hgt, hfmt, hfmt2, hr, hdr0]
     · simp [readH1, wH1, hol, hA, hB, hgt, hfmt, hfmt2, hr, hdr0]
